@@ -401,6 +401,7 @@ def rule_seq_once(ctx):
         ctx.ob(R, fi, i, unparse(arg_of(s.ast, 0)) == unparse(arg_of(i.ast, 0)), "read and increment use different partitions", text="same-tp")
         inc = arg_of(i.ast, 1) or arg_of(i.ast, kw="increment")
         ctx.ob(R, fi, i, inc is not None and unparse(inc).endswith(".record_count"), f"increment is {unparse(inc) if inc is not None else None}, not the batch's record count", text="inc-by-count")
+        _count_chain(ctx, R, fi, i)
         bs = arg_of(st.ast, kw="base_sequence") or arg_of(st.ast, 2)
         okb = False
         if isinstance(bs, ast.Name):
@@ -472,6 +473,50 @@ def _resolution_events(c):
         elif a == "append" and isinstance(f, ast.Attribute) and unparse(f.value).endswith("_to_reenqueue"):
             out.append(n)
     return out
+
+
+
+def _count_chain(ctx, R, fi, inc_node):
+    """`batch.record_count` must be the number of records the batch puts on the wire: MessageBatch.record_count -> the user-visible
+    BatchBuilder's counter, which moves by one exactly when the record builder accepted a record."""
+    from ..rulekit import none_tests, only_return_value
+    MBq = "aiokafka.producer.message_accumulator.MessageBatch.record_count"
+    BBq = "aiokafka.producer.message_accumulator.BatchBuilder.record_count"
+    fm, fb = ctx.fn(MBq), ctx.fn(BBq)
+    rv = only_return_value(fm.node)
+    ctx.ob(R, fm, fm.node, rv is not None and unparse(rv) == "self._builder.record_count()",
+           f"MessageBatch.record_count is `{unparse(rv) if rv is not None else None}`, not the builder's count of appended records: batches filled through "
+           "create_batch()/send_batch() are counted differently and the next batch re-uses sequence numbers", text="count-is-builder-count")
+    rb = only_return_value(fb.node)
+    okc = rb is not None and isinstance(rb, ast.Attribute) and unparse(rb.value) == "self"
+    ctx.ob(R, fb, fb.node, okc, "BatchBuilder.record_count does not return a counter field", text="builder-count-field")
+    if not okc:
+        return
+    cnt = rb.attr
+    fa = ctx.fn("aiokafka.producer.message_accumulator.BatchBuilder.append")
+    ca = ctx.cfg(fa)
+    writers = []
+    for name, fm_ in ctx.repo.cls("aiokafka.producer.message_accumulator.BatchBuilder").methods.items():
+        for s_ in ctx.cfg(fm_).stores(attr=cnt):
+            if unparse(s_.ast) == f"self.{cnt}":
+                writers.append((fm_.qualname, s_))
+    incs = [s_ for q, s_ in writers if q.endswith(".append")]
+    others = [q for q, s_ in writers if not q.endswith(".append") and not q.endswith(".__init__")]
+    ok = len(incs) == 1 and not others and isinstance(incs[0].stmt, ast.AugAssign) and isinstance(incs[0].stmt.op, ast.Add) and const_value(incs[0].stmt.value) == 1
+    if ok:
+        ap = [n for n in ca.nodes if n.kind == "call" and unparse(n.ast.func) == "self._builder.append"]
+        ok = len(ap) == 1
+        if ok:
+            md = ap[0].stmt.targets[0].id if isinstance(ap[0].stmt, ast.Assign) and isinstance(ap[0].stmt.targets[0], ast.Name) else None
+            nt = none_tests(ca, md) if md else []
+            ok = len(nt) == 1
+            if ok:
+                t, l_none, l_some = nt[0]
+                refused = ca.reachable([m for m, l in t.succ if l == l_none], include_src=True)
+                accepted_rets = [r for r in ca.nodes if r.kind == "return" and r.ast.value is not None and unparse(r.ast.value) == md]
+                # counted iff accepted: never on the refused arm, and on every path to `return metadata`
+                ok = incs[0] not in refused and bool(accepted_rets) and all(r not in ca.reachable([t], avoid=[incs[0]], exc=False) for r in accepted_rets)
+    ctx.ob(R, fa, fa.node, ok, f"BatchBuilder.{cnt} does not move by exactly one for every record the record builder accepted (and only then)", text="builder-count-tracks-appends")
 
 
 def rule_classify(ctx):
